@@ -49,7 +49,7 @@ pub fn full_alphabet() -> Vec<(String, Sym)> {
         for tl in [0usize, 1, 2, 8, 32] {
             let t = format!("tid={}", tid_hex(tl));
             v.push((format!("ping src{src} tid{tl}"), vec![(src, format!("ping {t}"))]));
-            for w in ["-", "n4", "n6", "both"] {
+            for w in ["-", "n4", "n6", "both", "n6n4", "n6n6", "n4n4", "n4zz", "empty"] {
                 v.push((format!("find_node want={w} src{src} tid{tl}"), vec![(src, format!("fn {w} {t}"))]));
                 v.push((format!("get_peers want={w} src{src} tid{tl}"), vec![(src, format!("gp 1 {w} {t}"))]));
             }
